@@ -304,3 +304,80 @@ def rare(draw, k):
 def style():
     return st.fixed_dictionaries({'charge_plus': st.booleans(), 'unknown_split': st.booleans(),
                                   'unknown_first': st.booleans(), 'glob_rev': st.booleans()})
+
+
+# ---- modification texts with an a-priori mass (C02, C03, C07, C11, C12, C18) ------------------------
+
+_GLY = ['Hex', 'HexNAc', 'Fuc', 'NeuAc', 'dHex', 'Pent', 'HexA', 'Kdn', 'NeuGc', 'HexN']
+
+
+@lru_cache(None)
+def mass_formula_text(max_tokens=4, fractional=False):
+    el = st.sampled_from(['C', 'H', 'N', 'O', 'S', 'P'])
+    iso = st.sampled_from(['13C', '15N', '18O', 'D', 'T', '2H', '17O', '34S'])
+    cnt = st.one_of(st.just(''), st.integers(1, 20).map(str), st.integers(-5, -1).map(str))
+    plain = st.tuples(el, cnt).map(''.join)
+    brk = st.tuples(iso, cnt).map(lambda t: '[' + t[0] + t[1] + ']')
+    return st.lists(st.one_of(plain, plain, plain, brk), min_size=1, max_size=max_tokens).map(lambda xs: 'Formula:' + ''.join(xs))
+
+
+@lru_cache(None)
+def mass_glycan_text():
+    item = st.tuples(st.sampled_from(_GLY), st.integers(1, 4)).map(lambda t: f'{t[0]}{t[1]}')
+    return st.lists(item, min_size=1, max_size=3, unique_by=lambda s: s.rstrip('0123456789')).map(lambda xs: 'Glycan:' + ''.join(xs))
+
+
+@lru_cache(None)
+def mass_unimod_text(gt_ok=True, chnops=False):
+    from pv import refmods
+    es = [e for e in vocab()['unimod'] if '|' not in e['name'] and '#' not in e['name'] and '@' not in e['name']
+          and (gt_ok or '>' not in e['name']) and (not chnops or (e['comp'] is not None and refmods.chnops_only(e['comp'])))]
+    shared = {e['name'] for e in vocab()['psimod']}
+    names = [e['name'] for e in es if e['name'] not in shared]
+    ids = [e['id'] for e in es]
+    common = [n for n in ['Oxidation', 'Phospho', 'Acetyl', 'Carbamidomethyl', 'Deamidated', 'Methyl', 'Amidated', 'Label:13C(6)15N(2)',
+                          'TMT6plex', 'GG', 'Dimethyl:2H(4)'] if n in names]
+    pre = st.sampled_from(['U:', 'UNIMOD:', 'u:', 'Unimod:'])
+    return st.one_of(st.sampled_from(names), st.sampled_from(common), st.tuples(pre, st.sampled_from(names)).map(''.join),
+                     st.tuples(pre, st.sampled_from(ids)).map(''.join))
+
+
+@lru_cache(None)
+def mass_psi_text(mono=True):
+    from pv import refmods
+    es = [e for e in vocab()['psimod'] if refmods.psi_self_consistent(e, True) and refmods.psi_self_consistent(e, False)
+          and refmods.chnops_only(e['comp']) and '>' not in e['name'] and '@' not in e['name']]
+    pre = st.sampled_from(['MOD:', 'M:', 'PSI-MOD:', 'mod:'])
+    return st.one_of(st.tuples(pre, st.sampled_from([e['id'] for e in es])).map(''.join),
+                     st.tuples(pre, st.sampled_from([e['name'] for e in es])).map(''.join),
+                     st.sampled_from([e['name'] for e in es]))
+
+
+@lru_cache(None)
+def mass_mod_text(kinds=('num', 'formula', 'unimod', 'glycan'), gt_ok=True, chnops=False, decorate=False):
+    alts = []
+    if 'num' in kinds:
+        alts += [numeric_text(), numeric_text()]
+    if 'formula' in kinds:
+        alts += [mass_formula_text(), mass_formula_text()]
+    if 'unimod' in kinds:
+        alts += [mass_unimod_text(gt_ok, chnops), mass_unimod_text(gt_ok, chnops)]
+    if 'glycan' in kinds:
+        alts += [mass_glycan_text()]
+    if 'psi' in kinds:
+        alts += [mass_psi_text()]
+    if 'obs' in kinds:
+        alts += [obs_text()]
+    if 'shift' in kinds:
+        alts += [prefixed_shift_text()]
+    base = st.one_of(*alts)
+    if not decorate:
+        return base
+    tagged = st.tuples(base, tag_text()).map(''.join)
+    alt_info_last = base.map(lambda s: s + '|INFO:note')
+    alt_info_first = base.map(lambda s: 'INFO:x|' + s)
+    return st.one_of(base, base, base, tagged, alt_info_last, alt_info_first, tag_text())
+
+
+def mass_mod(kinds=('num', 'formula', 'unimod', 'glycan'), max_mult=3, **kw):
+    return st.tuples(mass_mod_text(kinds, **kw), st.sampled_from([1, 1, 1] + list(range(2, max_mult + 1)))).map(list)
